@@ -425,6 +425,27 @@ pub fn replay_fun(scenario: &str, input: &Value) -> Vec<Finding> {
     }
 }
 
+/// The user mask is compared with the nick!user@host the connection has when its
+/// registration completes - also when an earlier attempt of the same connection (under a
+/// nickname that matched) was refused because somebody else had taken that nickname.
+pub fn user_mask_contended(full: bool) -> crate::scn::ChatScn {
+    use crate::check::Cat;
+    let mut s = super::ghost::ghost_scn("c14-user-mask-contended", &[Cat::UserExistence, Cat::UserIdentity, Cat::UserModes], full);
+    s.cfg.users = vec![("uu".into(), "bob".into(), None, Some("bob!~uu@*".into()))];
+    s.cfg.label = "user-mask bob!~uu@*".into();
+    s.parts[1].user = "uu";
+    s.extra_actions = Some(Box::new(|scn, v| {
+        let mut acts = vec![];
+        for p in &scn.parts {
+            if p.late && v.life[p.slot] == crate::world::Life::Live && v.nick(p.slot).is_none() {
+                acts.push(crate::bfs::Act::Send(p.slot, format!("NICK {}", p.alt)));
+            }
+        }
+        acts
+    }));
+    s
+}
+
 pub fn plan(quick: bool) -> Plan {
     let (mm, mt, mw) = if quick { (6, 6, 3) } else { (8, 7, 3) };
     Plan {
@@ -435,6 +456,7 @@ pub fn plan(quick: bool) -> Plan {
             Part::Custom("fun:glob".into(), Box::new(move || part_glob(mm, mt))),
             Part::Custom("fun:normalize".into(), Box::new(|| part_norm(6))),
             Part::Custom("fun:wire".into(), Box::new(move || part_wire(mw))),
+            Part::Bfs(Box::new(user_mask_contended(!quick)), super::lim(if quick { 6 } else { 7 }, 2_000_000, if quick { 20.0 } else { 600.0 })),
         ],
     }
 }
